@@ -274,7 +274,11 @@ class HeaderDict(DictMixin):
         return ret
 
     def setdefault(self, key, value):
-        return self._ts.dict.setdefault(key, _hval(value) if not isinstance(value, list) else value)
+        if isinstance(value, list):
+            value = [_hval(v) for v in value]
+        else:
+            value = _hval(value)
+        return self._ts.dict.setdefault(key, value)
 
     def append(self, key, value):
         d = self._ts.dict
